@@ -128,7 +128,8 @@ FieldLaws(f) ==
                                   "pressure", "dev_rr", "dev_qq", "stress_diff", "cavity", "zero-ahead"}, ineq |-> {}]
     [] f \in {"Rod1D", "RodNH", "Sandwich", "Hutchens1", "Hutchens2", "Rectangle", "CylSandwich"}
                       -> [eq |-> {"heat", "bc-left", "bc-right", "bc-bottom", "bc-top", "bc-surface", "initial", "steady", "regular"}, ineq |-> {}]
-    [] f = "Riemann2D" -> [eq |-> {"speed2=u2+v2", "mach=speed/c", "fan.turning=nu(M2)-nu(M1)", "fan.isentropic", "fan.total-enthalpy"}, ineq |-> {}]
+    [] f = "Riemann2D" -> [eq |-> {"speed2=u2+v2", "mach=speed/c", "fan.turning=nu(M2)-nu(M1)", "fan.isentropic", "fan.total-enthalpy",
+                                   "shock.density-ratio", "shock.turning=theta(beta,M)", "shock.mach-behind"}, ineq |-> {}]
     [] f = "SDRZ" -> [eq |-> {"mass-flux", "rayleigh-line", "energy", "sound", "ahead"}, ineq |-> {"lambda<=1", "lambda>=0"}]
     [] f = "RadShock" -> [eq |-> {"mass-flux", "momentum-flux", "energy-flux", "upstream.rho", "upstream.T", "upstream.mach", "upstream.equilibrium",
                                   "downstream.equilibrium"} \cup {"steady." \o n : n \in {"temperature", "temperature_mat", "temperature_rad", "density", "velocity",
